@@ -26,6 +26,7 @@ null; the task says "None where supported").
 """
 import itertools
 import json
+import re
 import random
 import sys
 
@@ -238,7 +239,24 @@ def classify_set(ctx):
             d = next(K.diff_canon(mem, obs["reloaded"]))
             out.append(("reload-differs-from-memory/%s" % (d[1] if d[1] != "value" else "%s-becomes-%s" % (d[2][0], d[3][0])),
                         "the dumped text reloads to other data than the edited document holds"))
+    elif anchors_missing_in_dump(obs, ctx["exp_anchors"]):
+        # the anchors the document has in memory are not the anchors its dump defines (an anchor without an alias is
+        # written only when the node asks for it)
+        gone = anchors_missing_in_dump(obs, ctx["exp_anchors"])
+        p = sorted(p_ for p_, n_ in ctx["exp_anchors"].items() if n_ in gone)[0]
+        pos = tuple(tuple(x) for x in json.loads(p))
+        who = "matched" if (pos in matched or pos in aliases) else "bystander"
+        out.append(("anchor-not-in-the-dump/%s" % who, "the dump of the edited document no longer defines an anchor of a %s node" % who))
     return list(dict.fromkeys(out))
+
+
+def anchors_missing_in_dump(obs, exp_anchors):
+    """Names of scalar anchors the document should have that the DUMPED TEXT does not define (`&name`).  Judged on the text:
+    ruamel's loader itself drops the anchor of some reloaded scalars (a plain 0), which is not yamlpath's doing."""
+    text = obs.get("text")
+    if not text or not exp_anchors:
+        return set()
+    return {n for n in set(exp_anchors.values()) if not re.search(r"&%s(?![A-Za-z0-9_])" % re.escape(n), text)}
 
 
 def split_oos(cl):
@@ -360,7 +378,7 @@ def run_set_case(text, path, value):
         return {"status": "oos", "oos": "null-onto-anchored-scalar-unsupported/TypeError@nodes.py:make_new_node"}
     obs = observe(doc)
     ok = (exc is None and obs["mem"] == exp and obs["anchors"] == exp_anchors and obs["dump_error"] is None
-          and obs["reload_error"] is None and obs["reloaded"] == exp)
+          and obs["reload_error"] is None and obs["reloaded"] == exp and not anchors_missing_in_dump(obs, exp_anchors))
     kinds = sorted({_ptype(p) for p in matched})
     sig = [PROP, K.skeleton(before), K._path_kinds(path), vcanon[0], min(len(matched), 3),
            len(positions) > len(matched), bool(aliases - matched), kinds, sorted(flags)]
@@ -658,7 +676,7 @@ def run_history(text, ops):
                 exc = ex
             obs = observe(doc)
             ok = (exc is None and obs["mem"] == exp and obs["dump_error"] is None and obs["reload_error"] is None
-                  and obs["reloaded"] == exp and obs["anchors"] == exp_anchors)
+                  and obs["reloaded"] == exp and not anchors_missing_in_dump(obs, exp_anchors) and obs["anchors"] == exp_anchors)
             if not ok:
                 if exc is not None or obs["mem"] != exp:
                     cl = [("history-delete/" + s, w) for s, w in
@@ -708,7 +726,7 @@ def run_history(text, ops):
                     "steps": n, "trace": trace}
         obs = observe(doc)
         ok = (exc is None and obs["mem"] == exp and obs["anchors"] == exp_anchors and obs["dump_error"] is None
-              and obs["reload_error"] is None and obs["reloaded"] == exp)
+              and obs["reload_error"] is None and obs["reloaded"] == exp and not anchors_missing_in_dump(obs, exp_anchors))
         if not ok:
             ctx = {"before": before, "exp": exp, "exp_anchors": exp_anchors, "obs": obs, "exc": exc,
                    "matched": matched, "aliases": aliases, "ids": ids, "vcanon": vcanon, "flags": flags}
